@@ -59,6 +59,7 @@ from . import common
 from . import c01_gen as gen
 from . import c01_rw as rw
 from . import c01_min as cmin
+from . import c01_seq as cseq
 
 LEVEL = "exploration"
 
@@ -418,6 +419,23 @@ def _explore(item):
     return stats, b"".join(digests), fails
 
 
+# ----------------------------------------------------------------------------- sequences (xv/c01_seq.py)
+
+def _explore_seq(text):
+    """Stage 3: one sequence of lexically stateful statements, exec mode."""
+    stats = {"candidates": 1, "accepted": 0, "evals": 0, "fail_inputs": 0}
+    fails = {}
+    r = evaluate(text, "exec")
+    if r is None:
+        return stats, b"", fails
+    stats["accepted"] = stats["evals"] = 1
+    if r != "ok":
+        stats["fail_inputs"] = 1
+        key, mt, mm, msig = classify(text, "exec", r)
+        fails[key] = [1, (len(text), text, "exec", "sequence"), mt, mm, msig]
+    return stats, _digest("exec", text), fails
+
+
 def _all_kinds():
     out = set()
     for sort in ("stmt", "expr", "pattern", "type_param", "excepthandler", "boolop", "operator", "unaryop", "cmpop"):
@@ -504,6 +522,25 @@ def run(ctx):
                 f[0] += n
                 if tuple(ex) < tuple(f[1]):
                     f[1] = ex
+    # ---- stage 3: sequences of lexically stateful statements
+    seqs = cseq.sequences(ctx.thorough)
+    res3 = common.pmap(_explore_seq, seqs, ctx.jobs, chunk=16, init=_init_worker, seed=ctx.seed)
+    seq_tot = {"candidates": 0, "accepted": 0, "fail_inputs": 0}
+    for st, dg, fl in res3:
+        for kk in seq_tot:
+            seq_tot[kk] += st[kk]
+        for kk in tot:
+            tot[kk] += st[kk]
+        blob.append(dg)
+        for key, (n, ex, mt, mm, sig) in fl.items():
+            f = fails.get(key)
+            if f is None:
+                fails[key] = [n, ex, mt, mm, sig]
+            else:
+                f[0] += n
+                if tuple(ex) < tuple(f[1]):
+                    f[1] = ex
+    ctx.log(f"sequence layer: {seq_tot['candidates']} sequences of {len(cseq.LEX_SNIPPETS)} lexically stateful statements, {seq_tot['accepted']} accepted by CPython, {seq_tot['fail_inputs']} failing")
     data = b"".join(blob)
     distinct = len({data[i : i + 8] for i in range(0, len(data), 8)})
     ctx.log(f"concrete layer: {tot['candidates']} candidate texts, {tot['accepted']} (text, mode) inputs accepted by CPython, {distinct} distinct; {tot['fail_inputs']} failing inputs in {len(fails)} classes")
@@ -556,6 +593,7 @@ def run(ctx):
         ast_node_kinds_in_accepted_programs=len(kinds),
         ast_node_kinds_missing=sorted(_all_kinds() - kinds),
         bounds=bounds,
+        sequence_layer={"snippets": len(cseq.LEX_SNIPPETS), "lengths": [2, 3] if ctx.thorough else [2], "sequences": seq_tot["candidates"], "accepted_by_cpython": seq_tot["accepted"], "failing": seq_tot["fail_inputs"]},
     )
     ctx.assumptions += [
         "Parser.parse is driven as xonsh's entry points drive it: exec/single text gets a final newline if missing, eval text has trailing newlines stripped; an empty program (parse() -> None) is read as an empty module",
